@@ -585,16 +585,22 @@ fn group(codec: &str, leg: &str, found: Vec<Found>, out: &mut BTreeMap<String, (
         }
     }
     for ((law, kind, extra), args, mut detail) in groups {
-        let mut sig = format!("decoder={} law={} kind={}", codec, law, kind);
+        let mut sig = format!("decoder={} law={}", codec, law);
+        if !kind.is_empty() {
+            sig.push_str(&format!(" kind={}", kind));
+        }
         if !extra.is_empty() {
             sig.push(' ');
             sig.push_str(&extra);
         }
         let listed: Vec<&String> = args.iter().filter(|a| !a.is_empty()).collect();
-        if !listed.is_empty() {
+        if !listed.is_empty() && listed.len() <= 6 {
             sig.push_str(" payloads=[");
             sig.push_str(&listed.iter().map(|s| s.as_str()).collect::<Vec<_>>().join("; "));
             sig.push(']');
+        } else if !listed.is_empty() {
+            let all = listed.iter().map(|s| s.as_str()).collect::<Vec<_>>().join("; ");
+            sig.push_str(&format!(" payloads={} first=[{}] set={:08x}", listed.len(), listed[0], vcommon::fnv(all.as_bytes()) as u32));
         }
         detail["signature_members"] = json!(args);
         out.entry(sig).or_insert((leg.to_string(), detail));
@@ -746,6 +752,7 @@ where
     acc.frag.stats.add(&st);
     acc.frag.capped |= capped;
     acc.frag.wall_s += t0.elapsed().as_secs_f64();
+    let w_frag = t0.elapsed().as_secs_f64();
     acc.frag.per_codec.push(json!({"codec": e.name, "pool": n, "max_seq": base, "extra_level_one_cut": p.extra_level,
         "streams": st.streams, "cases": st.cases, "decode_calls": st.calls, "resumed_cases": st.nontrivial,
         "streams_with_all_2cuts": st.two_cut_streams, "skipped_supersequences_of_failing": st.skipped_nonminimal, "capped": st.capped}));
@@ -827,6 +834,7 @@ where
     acc.trunc.stats.add(&st);
     acc.trunc.capped |= capped;
     acc.trunc.wall_s += t0.elapsed().as_secs_f64();
+    let w_trunc = t0.elapsed().as_secs_f64();
     acc.trunc.per_codec.push(json!({"codec": e.name, "streams": st.streams, "cases": st.cases, "decode_calls": st.calls, "capped": st.capped}));
     if acc.trunc.samples.len() < 2 && n > 0 {
         let msgs = vec![e.pool[n - 1].clone()];
@@ -877,7 +885,7 @@ where
                         continue;
                     }
                 };
-                let (kind, args) = (e.variant)(&msgs[mi]);
+                let (kind, _args) = (e.variant)(&msgs[mi]);
                 for fld in &fields {
                     for bi in 0..fld.width {
                         let pos = bounds[mi] + fld.off + bi;
@@ -911,19 +919,15 @@ where
                                     CorruptVerdict::Ignored => s.ignored += 1,
                                     CorruptVerdict::Faithful => s.faithful += 1,
                                     CorruptVerdict::Fail(f, decoded_as) => {
-                                        let mut extra = format!("field={}", fld.name);
-                                        if !decoded_as.is_empty() {
-                                            extra.push_str(&format!(" decoded_as={}", decoded_as));
-                                        }
-                                        if seq.len() > 1 {
-                                            // a failure that needs a second frame: say where the corrupted frame stands
-                                            extra.push_str(&format!(" position={}of{}", mi + 1, seq.len()));
-                                        }
+                                        // one signature per (decoder, law, field); what it was decoded as goes to the detail
+                                        let extra = format!("field={}", fld.name);
                                         if !out.iter().any(|o| o.law == f.law && o.extra == extra) {
                                             let mut detail = case_detail(e.name, "corruption", seq, &msgs, &shown, &bad, &cuts, &f, p.tier);
                                             detail["corrupt"] = json!({"offset": pos, "value": v, "original": orig, "field": fld.name, "byte_of_field": bi, "message_index": mi});
                                             detail["input"] = json!(format!("{} seq=[{}] byte {} ({}[{}]) {:#04x}->{:#04x} cuts={}", e.name, shown.join(", "), pos, fld.name, bi, orig, v, if cuts.is_empty() { "none" } else { "byte-by-byte" }));
-                                            out.push(Found { law: f.law.clone(), kind: kind.clone(), args: args.clone(), extra, detail });
+                                            detail["corrupted_message_kind"] = json!(kind);
+                                            detail["first_wrong_message_decoded_as"] = json!(decoded_as);
+                                            out.push(Found { law: f.law.clone(), kind: String::new(), args: String::new(), extra, detail });
                                         }
                                     }
                                 }
@@ -943,22 +947,19 @@ where
                 capped = true;
             }
             for f in out {
-                let base_extra = f.extra.split(" position=").next().unwrap_or("").to_string();
-                if len > 1 && found.iter().any(|g| g.law == f.law && g.kind == f.kind && g.extra.split(" position=").next().unwrap_or("") == base_extra) {
+                // smallest first: one report per (law, field, decoded-as)
+                if found.iter().any(|g| g.law == f.law && g.kind == f.kind && g.extra == f.extra) {
                     continue;
                 }
                 found.push(f);
             }
         }
     }
-    // payload descriptions do not matter for tag/length corruption: collapse them
-    for f in found.iter_mut() {
-        f.args = String::new();
-    }
     group(&dname, "corruption", found, &mut acc.violations);
     acc.corrupt.stats.add(&st);
     acc.corrupt.capped |= capped;
     acc.corrupt.wall_s += t0.elapsed().as_secs_f64();
+    let w_corrupt = t0.elapsed().as_secs_f64();
     acc.corrupt.per_codec.push(json!({"codec": e.name, "streams": st.streams, "cases": st.cases, "decode_calls": st.calls,
         "rejected_with_error": rejected_total, "field_ignored_same_messages": st.ignored, "valid_other_stream": st.faithful, "capped": st.capped}));
     if acc.corrupt.samples.len() < 2 && n > 0 {
@@ -1071,8 +1072,14 @@ where
     acc.recover.stats.add(&st);
     acc.recover.capped |= capped;
     acc.recover.wall_s += t0.elapsed().as_secs_f64();
+    let w_recover = t0.elapsed().as_secs_f64();
 
-    eprintln!("[C10] {:<34} pool={:<3} {:.1}s", e.name, n, t_entry.elapsed().as_secs_f64());
+    if std::env::var("C10_VERBOSE").is_ok() {
+        eprintln!(
+            "[C10] {:<34} pool={:<3} {:.1}s (frag {:.1} trunc {:.1} corrupt {:.1} recover {:.1})",
+            e.name, n, t_entry.elapsed().as_secs_f64(), w_frag, w_trunc, w_corrupt, w_recover
+        );
+    }
 }
 
 // ------------------------------------------------------------------------------------- replay
